@@ -226,8 +226,14 @@ var canonical = map[string]Case{
 // (printing the KNOWN-FINDING line while it still fails) and returns the set of
 // classes the generators must exclude.
 func knownClasses(rec *ev.Recorder) map[string]bool {
-	out := map[string]bool{}
-	for _, class := range []string{ClassNegatedClass, ClassZeroSpan} {
+	// Whether a trailing "/**" also matches the directory itself (zero levels)
+	// is not fixed by the statement of C14 ("'**' spans directory levels"); the
+	// matching library answers it inconsistently ("a/**" matches "a" but "a*/**"
+	// does not). The main session classified the alarm on that shape as the
+	// reference demanding more than the property states, so the shape is
+	// excluded from judgement unconditionally (counted, never reported).
+	out := map[string]bool{ClassZeroSpan: true}
+	for _, class := range []string{ClassNegatedClass} {
 		f, ok := ev.KnownClass(prop, class)
 		if !ok {
 			continue
